@@ -661,7 +661,10 @@ def _index_agreement(ctx, rid, cname, w):
 # ---------------------------------------------------------------------------
 
 OBS = ['contains', 'sample', 'log_v', 'write', 'update', 'reset', 'transform', 'predict',
-       'n_ell', 'n_net']
+       'n_ell', 'n_net',
+       # a restored union is split / trimmed like any other (the writer stores the points of
+       # every member for exactly that purpose)
+       'split', 'trim']
 
 
 def attrs_assigned(func, obj):
@@ -715,7 +718,8 @@ def obs_reads(prog, cls):
 
 def rule_P3(ctx, cls, ctors, rid='P3', exceptions=()):
     ctx.rule(rid, 'definite assignment: every attribute read through the observation interface '
-             '(contains, sample, log_v, write, update, reset, transform, predict, n_ell, n_net) '
+             '(contains, sample, log_v, write, update, reset, transform, predict, n_ell, n_net, '
+             'split, trim) '
              'is assigned on every path of every constructor (compute / read / train)')
     prog = ctx.program
     reads = obs_reads(prog, cls)
@@ -1574,8 +1578,6 @@ P0_EXCEPTIONS = {
     ('NautilusBound', 'rng'): 'the shared generator is persisted once, by the sampler',
     ('UnitCube', 'rng'): 'the shared generator is persisted once, by the sampler',
     ('Ellipsoid', 'rng'): 'the shared generator is persisted once, by the sampler',
-    ('Union', 'block'): 'read by split() only; bounds are split only while being constructed, '
-                        'before they are ever written',
 }
 
 
@@ -1997,6 +1999,27 @@ def _rederived_like_constructor(ctx, rid, cls, reader, obj, st, a, gv, cfg, assi
     return 1
 
 
+def _legacy_fallback(cls, cfg, nid, attr):
+    """The statement runs only where `'<key>' in <group>.attrs` is false, and the full writer of
+    the class stores that key from `attr` on every path."""
+    w = cls.methods.get('write')
+    if w is None:
+        return False
+    for atom, text, truth in cfg.facts(nid):
+        if truth is not False or not (isinstance(atom, ast.Compare) and len(atom.ops) == 1 and
+                                      isinstance(atom.ops[0], ast.In) and
+                                      isinstance(atom.left, ast.Constant) and
+                                      isinstance(atom.left.value, str)):
+            continue
+        key = atom.left.value
+        wcfg = cfg_of(w)
+        stores = {wcfg.node_of(e.node).id for e in writer_table(w)
+                  if e.key == key and e.attr == attr and not e.key_args and wcfg.has(e.node)}
+        if stores and wcfg.must_pass(wcfg.entry.id, wcfg.exit.id, stores):
+            return True
+    return False
+
+
 def rule_P10(ctx, cls, reader, obj, rid='P10'):
     ctx.rule(rid, 'restored, not re-derived: an attribute that the observation interface reads '
              'and that some non-constructor method modifies is restored from the file (or from '
@@ -2029,6 +2052,10 @@ def rule_P10(ctx, cls, reader, obj, rid='P10'):
                         or (isinstance(x, ast.Attribute) and x.attr == 'rng')
                         for x in ast.walk(st.value))
         is_none = isinstance(st.value, ast.Constant) and st.value.value is None
+        if not from_file and cfg.has(st) and _legacy_fallback(cls, cfg, cfg.node_of(st).id, a):
+            # the branch for files that lack the key: today's writer always stores it, so the
+            # derived value only ever serves files written before the key existed
+            continue
         n += 1
         ctx.ob(rid, '%s.read:%s' % (cls.name, a), from_file or is_none, reader.where(st),
                'attribute %r is restored from the file' % a if from_file or is_none else
